@@ -284,11 +284,12 @@ func strRepeatFunc(_ *ctx.EvalCtx, receiver object.Object, args ...object.Object
 	val := receiver.(*object.Str).Value
 	count := int(firstArg.Value)
 
-	if count < 0 {
-		count = 0
-	}
+	repeated, ok := repeatStr(val, count)
 
-	repeated := strings.Repeat(val, count)
+	if !ok {
+		msg := fmt.Sprintf(fail.ErrFuncResultTooLong, "repeat", object.STR_OBJ, maxRepeatLen)
+		return nil, errors.New(msg)
+	}
 
 	return &object.Str{Value: repeated}, nil
 }
